@@ -199,6 +199,20 @@ func CheckC01(e *Env) int {
 	results := RunPool(e, progs, PoolOpts{Execute: true, Name: "c01"})
 	for _, pr := range results {
 		EvalAccepted(pr)
+		if pr.P.RawDriver && len(pr.Issues) == 0 {
+			// hand-written drivers: an injector that panics has not been implemented (the
+			// template itself panics when it is taken for an ordinary function and copied)
+			for _, ct := range pr.Calls {
+				for _, ev := range ct.Events {
+					if ev.Ev == "panic" {
+						pr.add("C01", "gen reported success but calling injector "+ct.Inj+" panics: "+ev.Msg, pr.GenFile)
+					}
+					if ev.Ev == "note" && ev.Kind == "template_form" && len(ev.Vals) > 0 && ev.Vals[0] == "false" {
+						pr.add("C01", "gen reported success but injector "+ct.Inj+" returns the template's placeholder result, not the provided value", pr.GenFile)
+					}
+				}
+			}
+		}
 	}
 	reportPool(rep, results)
 	addSamples(rep, results, 3)
